@@ -35,6 +35,8 @@ def main():
         import check_c11 as m
     elif pid == "C15":
         import check_c15 as m
+    elif pid == "C16":
+        import check_c16 as m
     elif pid == "C17":
         import check_c17 as m
     else:
